@@ -17,6 +17,7 @@ func init() {
 		run: runC03,
 		explanation: "Decided (structural, for every query sequence and cache capacity): " +
 			"C03.keyhash — in every cacheKey method of an expression type with operands, the operands' keys flow only through order-preserving encoders (append, binary Put/AppendUint64, helper parameters) into a recognised hash (xxhash), never through arithmetic/bitwise operators or math/bits, the method returns that hash, and a per-type constant tag reaches the same hash input with tags pairwise distinct; " +
+			"C03.keyoperands — the list of keys an n-ary operator hashes is exactly one cacheKey() per operand in operand order (no operand skipped, replaced or expanded into its own operands); " +
 			"C03.keypair — each eval looks up and stores under its own cacheKey(), stores exactly the bitmap it returns, and returns the cached bitmap itself on a hit; " +
 			"C03.pure — in everything reachable from Execute/GetSchema every call of a mutating roaring.Bitmap method has a receiver created in that function and not yet handed to Cache.Put, and every roaring package function called is in the reviewed non-mutating table; " +
 			"C03.storeimm — fields of Index and of the column getters are written only by the open/option/close functions; " +
@@ -386,6 +387,7 @@ func hasExprFields(c *Ctx, n *types.Named) bool {
 
 func runC03(c *Ctx) {
 	c03Keyhash(c)
+	c03KeyOperands(c)
 	c03Keypair(c)
 	c03Pure(c)
 	c03StoreImm(c)
@@ -727,4 +729,78 @@ func cacheOwnerRule(c *Ctx, rule string) {
 	if n == 0 {
 		c.r.ok(rule, "module", "no non-test code installs a cache")
 	}
+}
+
+// c03KeyOperands: the key of an n-ary operator is computed from exactly one key per operand, in operand order: the
+// []uint64 handed to the hashing step is built by collecting x.cacheKey() for every element x of the operand list (append
+// loop or make+index, directly or in a helper), with no element skipped, replaced or expanded. Splicing the keys of a
+// nested node's operands into the parent's list (to exploit associativity) makes AND(x, AND()) share a key with AND(x)
+// although one is empty and the other is x.
+func c03KeyOperands(c *Ctx) {
+	const rule = "C03.keyoperands"
+	for _, T := range c.a.ExprImpls {
+		st, ok := T.Underlying().(*types.Struct)
+		if !ok {
+			continue
+		}
+		var listF *types.Var
+		for i := 0; i < st.NumFields(); i++ {
+			if sl, ok := st.Field(i).Type().Underlying().(*types.Slice); ok && types.Identical(sl.Elem(), c.a.ExprIface) {
+				listF = st.Field(i)
+			}
+		}
+		if listF == nil {
+			continue
+		}
+		name := "(*" + T.Obj().Name() + ").cacheKey"
+		fn := c.a.methodOf(T, "cacheKey")
+		if fn == nil {
+			c.r.undecided(rule, name, "method not found")
+			continue
+		}
+		isSrc := func(v ssa.Value) bool { return path(v).lastField() == listF }
+		keyCall := func(ec *ssa.Call) (ssa.Value, bool) {
+			if ec.Call.IsInvoke() && ec.Call.Method.Name() == "cacheKey" {
+				return ec.Call.Value, true
+			}
+			return nil, false
+		}
+		// the []uint64 argument(s) of calls in the method
+		var lists []ssa.Value
+		var at []ssa.Instruction
+		allInstrs(fn, func(i ssa.Instruction) {
+			call, ok := i.(*ssa.Call)
+			if !ok {
+				return
+			}
+			if b, isB := call.Call.Value.(*ssa.Builtin); isB && (b.Name() == "append" || b.Name() == "len" || b.Name() == "cap") {
+				return
+			}
+			for _, a := range call.Call.Args {
+				if sl, ok := a.Type().Underlying().(*types.Slice); ok {
+					if bt, ok := sl.Elem().Underlying().(*types.Basic); ok && bt.Kind() == types.Uint64 && !emptyBytes(a) {
+						lists = append(lists, a)
+						at = append(at, i)
+					}
+				}
+			}
+		})
+		if len(lists) == 0 {
+			c.r.ok(rule, name, "the method does not pass a list of operand keys to a hashing step (shape not covered by this rule; C03.keyhash still applies)", c.w.pos(fn.Pos()))
+			continue
+		}
+		for k, l := range lists {
+			ok, why := elementLoopKeys(c, fn, l, isSrc, keyCall)
+			key := name
+			if len(lists) > 1 {
+				key = fmt.Sprintf("%s#%d", name, k+1)
+			}
+			c.r.check(ok, rule, key, "one key per operand, in operand order", "the list of keys that is hashed is not exactly one cacheKey() per operand in order ("+why+"): expressions with different meaning can share a key", c.w.ipos(at[k]))
+		}
+	}
+}
+
+// elementLoopKeys is elementLoop for calls with a single result (cacheKey returns the key itself, not a tuple).
+func elementLoopKeys(c *Ctx, fn *ssa.Function, v ssa.Value, isSrc func(ssa.Value) bool, elemCall func(*ssa.Call) (ssa.Value, bool)) (bool, string) {
+	return elementLoopX(c, fn, v, isSrc, elemCall, 0, true)
 }
